@@ -79,7 +79,9 @@ func verifWriteGGUF(path string, tag string, blocks int, embedding bool) error {
 
 // ---- simulated runner --------------------------------------------------------------------
 
-// simLlama implements llm.LlamaServer behind Scheduler.newServerFn.
+// simLlama implements llm.LlamaServer behind Scheduler.newServerFn. Its methods are
+// //go:norace: under -race (H-api, C15) the stub's own bookkeeping must neither
+// show up in race reports nor cost report processing.
 type simLlama struct {
 	w           *simLlamaWorld
 	id          int
@@ -112,9 +114,11 @@ type simLlamaWorld struct {
 	pingFail  int  // 1/n chance of a spurious health-check failure (0 = never)
 	slowClose bool
 	onClose   func(s *simLlama)
+	onClosed  func(s *simLlama) // called when Close is about to return (teardown complete)
 	now       func() time.Duration
 }
 
+//go:norace
 func (w *simLlamaWorld) live() []*simLlama {
 	var l []*simLlama
 	for _, s := range w.srvs {
@@ -125,6 +129,7 @@ func (w *simLlamaWorld) live() []*simLlama {
 	return l
 }
 
+//go:norace
 func (s *simLlama) Ping(ctx context.Context) error {
 	verifsim.Yield("sim:ping")
 	if s.closed > 0 || !s.running {
@@ -137,6 +142,7 @@ func (s *simLlama) Ping(ctx context.Context) error {
 	return nil
 }
 
+//go:norace
 func (s *simLlama) WaitUntilRunning(ctx context.Context) error {
 	verifsim.Yield("sim:load-start")
 	t := time.NewTimer(s.loadDur)
@@ -160,12 +166,15 @@ func (s *simLlama) WaitUntilRunning(ctx context.Context) error {
 	return nil
 }
 
+//go:norace
 func (s *simLlama) Completion(ctx context.Context, req llm.CompletionRequest, fn func(llm.CompletionResponse)) error {
 	if s.script != nil {
 		return s.script(ctx, req, fn)
 	}
 	return nil
 }
+
+//go:norace
 func (s *simLlama) Embedding(ctx context.Context, input string) ([]float32, error) {
 	verifsim.Yield("sim:embedding")
 	if s.closed > 0 {
@@ -173,6 +182,8 @@ func (s *simLlama) Embedding(ctx context.Context, input string) ([]float32, erro
 	}
 	return []float32{0.1, 0.2, 0.3}, nil
 }
+
+//go:norace
 func (s *simLlama) Tokenize(ctx context.Context, content string) ([]int, error) {
 	verifsim.Yield("sim:tokenize")
 	if s.closed > 0 {
@@ -193,6 +204,7 @@ func (s *simLlama) Detokenize(ctx context.Context, tokens []int) (string, error)
 	return sb.String(), nil
 }
 
+//go:norace
 func (s *simLlama) Close() error {
 	verifsim.Yield("sim:close")
 	s.closed++
@@ -207,11 +219,19 @@ func (s *simLlama) Close() error {
 		// an observer may run between "closed" and "removed from the table"
 		verifsim.Yield("sim:close-mid")
 	}
+	if s.w.onClosed != nil {
+		s.w.onClosed(s)
+	}
 	return nil
 }
 
-func (s *simLlama) EstimatedVRAM() uint64  { return s.estimate.VRAMSize }
+//go:norace
+func (s *simLlama) EstimatedVRAM() uint64 { return s.estimate.VRAMSize }
+
+//go:norace
 func (s *simLlama) EstimatedTotal() uint64 { return s.estimate.TotalSize }
+
+//go:norace
 func (s *simLlama) EstimatedVRAMByGPU(gpuID string) uint64 {
 	for i, g := range s.gpus {
 		if g.ID == gpuID && i < len(s.estimate.GPUSizes) {
@@ -243,6 +263,7 @@ type simInventory struct {
 	w    *simLlamaWorld
 }
 
+//go:norace
 func (inv *simInventory) used(id string) uint64 {
 	var u uint64
 	for _, s := range inv.w.live() {
@@ -251,6 +272,7 @@ func (inv *simInventory) used(id string) uint64 {
 	return u
 }
 
+//go:norace
 func (inv *simInventory) list() discover.GpuInfoList {
 	var l discover.GpuInfoList
 	for _, g := range inv.gpus {
